@@ -487,7 +487,15 @@ func (ps *PathSim) exec(fn *ssa.Function, st *pstate, ins ssa.Instruction) {
 	case *ssa.IndexAddr:
 		st.env[x] = &Sym{K: sIndexAddr, A: ps.sym(st, x.X), B: ps.sym(st, x.Index), T: x.Type(), V: x}
 	case *ssa.Index:
-		st.env[x] = &Sym{K: sLoad, A: &Sym{K: sIndexAddr, A: ps.sym(st, x.X), B: ps.sym(st, x.Index)}, T: x.Type(), V: x}
+		base, idx := ps.sym(st, x.X), ps.sym(st, x.Index)
+		if base.K == sStruct && idx.K == sConst && idx.C != nil {
+			// an element of an array value whose elements are known on this path (a literal ranged over)
+			if v, ok := cellValue(getPath(base, []string{"[" + idx.Key() + "]"}), x.Type()); ok && v != nil && !(v.K == sStruct && v.A == nil && len(v.F) == 0) {
+				st.env[x] = v
+				return
+			}
+		}
+		st.env[x] = &Sym{K: sLoad, A: &Sym{K: sIndexAddr, A: base, B: idx}, T: x.Type(), V: x}
 	case *ssa.Slice:
 		lo, hi := "", ""
 		if x.Low != nil {
